@@ -19,7 +19,7 @@ canonicalises the real md5 file the same way.
 namespace Unc
 
 /-- the driver's digest: injective, never empty -/
-def hD (c : Bytes) : Bytes := 256 :: c
+def hD (c : FBytes) : FBytes := 256 :: c
 
 def pName : P → String
   | .target => "target" | .tmp => "tmp" | .bak => "bak" | .md5 => "md5"
@@ -41,10 +41,10 @@ def evName : Ev → String
 def parseMode : String → Option FsMode
   | "replace" => some .replace | "nobackup" => some .noBackup | "oeqf" => some .oEqualsF | _ => none
 
-def parseContent (s : String) : Option (Option Bytes) :=
+def parseContent (s : String) : Option (Option FBytes) :=
   if s = "~" then some none else (parseHexList s).map some
 
-def showContent : Option Bytes → String
+def showContent : Option FBytes → String
   | none => "~"
   | some bs => hexList bs
 
@@ -87,7 +87,7 @@ def fsRun (mode md5ar ck fmt t tmp bak md5 sch : String) : Option String := do
   pure (showResult (exec (doSourceFile ⟨a, c⟩ m (fun _ => r) hD) f s))
 
 /-- `cfg:<in>><out>` entries; identity where nothing is listed -/
-def parseFTable (s : String) : Option (List (Nat × Bytes × Bytes)) :=
+def parseFTable (s : String) : Option (List (Nat × FBytes × FBytes)) :=
   if s = "-" then some [] else
   (s.splitOn ";").mapM fun e =>
     match e.splitOn ":" with
@@ -101,13 +101,13 @@ def parseFTable (s : String) : Option (List (Nat × Bytes × Bytes)) :=
       | _ => none
     | _ => none
 
-def tableF (tab : List (Nat × Bytes × Bytes)) (cfg : Nat) (c : Bytes) : Bytes :=
+def tableF (tab : List (Nat × FBytes × FBytes)) (cfg : Nat) (c : FBytes) : FBytes :=
   match tab.find? (fun e => e.1 = cfg ∧ e.2.1 = c) with
   | some e => e.2.2
   | none => c
 
 inductive HOp
-  | w (c : Bytes) | r (cfg : Nat) | k (cfg : Nat) (sch : List Outcome)
+  | w (c : FBytes) | r (cfg : Nat) | k (cfg : Nat) (sch : List Outcome)
 
 def parseHOp (s : String) : Option HOp :=
   match s.splitOn ":" with
@@ -119,7 +119,7 @@ def parseHOp (s : String) : Option HOp :=
     pure (.k c sc)
   | _ => none
 
-def histStep (fx : Fix) (F : Nat → Bytes → Bytes) (s : FS) : HOp → FS
+def histStep (fx : Fix) (F : Nat → FBytes → FBytes) (s : FS) : HOp → FS
   | .w c => applyOp fx F hD s (.userWrite c)
   | .r cfg => applyOp fx F hD s (.run cfg)
   | .k cfg sch => (exec (runProg fx F hD cfg) s sch).fs
